@@ -218,6 +218,10 @@ func (w *World) loadKey(ld *ssa.UnOp) string {
 		}
 	}
 	if base == nil {
+		// a field of a context object built by a constructor and immutable afterwards
+		if v, suffix, ok := w.ctorField(ld); ok {
+			return w.key(v) + suffix
+		}
 		// heap object reached through a pointer: identity is the location; callers that need
 		// stability across program points must establish it themselves.
 		return "*" + loc
